@@ -478,6 +478,9 @@ class ShortTimeFourierTransformFrameComputer(LinearFilterBankFrameComputer):
             frame_length = self._frame_length
         frame_shift = self._frame_shift
         num_frames = max(0, (total_len - frame_length) // frame_shift + 1)
+        if noncausal_first and total_len < self._frame_length // 2 + 1:
+            # compute_full yields nothing for a signal this short: keep buffering
+            num_frames = 0
         coeffs = np.empty((num_frames, self.num_coeffs), dtype=self._chunk_dtype)
         for frame_idx in range(num_frames):
             frame_start_idx = frame_idx * frame_shift
@@ -518,7 +521,7 @@ class ShortTimeFourierTransformFrameComputer(LinearFilterBankFrameComputer):
             self._compute_frame(frame, coeffs[frame_idx])
             self._first_frame = False
         rem_len = total_len - num_frames * frame_shift
-        assert rem_len < frame_length
+        assert rem_len < frame_length or noncausal_first
         # keep the most recent samples in the buffer. The last rem_len of them
         # are the unconsumed remainder; the ones before are the history that
         # finalize needs in order to reflect the true tail of the signal
